@@ -14,7 +14,8 @@ Anchors (src/biogeme):
   `ConditionalSum`s over `availability[i] != 0`; alternatives outside every nest get `0`,
   resp. `log(mu) + (mu-1) V_i`), `get_mev_generating_for_nested`.
 * models/cnl.py    : `get_mev_for_cross_nested(_mu)` (availability *multiplies* the term;
-  `logzero` resp. `log(mu * Σ)`).
+  `logzero` resp. `log(mu * Σ)`, resp. the term of an alone alternative when every membership
+  is the constant 0).
 * models/ordered.py: `ordered_likelihood` (thresholds = cumulated differences, dict result).
 * nests.py         : `Nests.__init__` (alone alternatives, members outside the choice set),
   `check_union`, `check_intersection`, `check_partition`, `check_validity`, conversion of the
@@ -240,9 +241,20 @@ def inSomeCNest (nests : List (CNest α)) (i : Int) : Bool := nests.any fun m =>
 def cnlLogG (nests : List (CNest α)) (V av : Int → α) (i : Int) : α :=
   if inSomeCNest nests i then logzero (sum (giTerms (cnlTerm V av) nests i)) else 0
 
-/-- `get_mev_for_cross_nested_mu`: `log(mu * Σ terms)`; alone ⇒ `log mu + (mu - 1) V_i` -/
+/-- `all(isinstance(a, Numeric) and a.get_value() == 0 for a in memberships)` in
+`get_mev_for_cross_nested_mu` (`memberships` = the alphas of `i` in the nests that list it):
+every membership of `i` is zero (vacuously true for an alternative listed nowhere).
+The model carries the *value* of a membership only: a zero is taken to be a constant — the code
+does not recognise a `Beta` of value 0 (it then computes `log(mu * 0)`); the harness writes the
+zeros of an alternative that belongs to no nest as constants. -/
+def zeroMember (nests : List (CNest α)) (i : Int) : Bool :=
+  (giTerms (fun _ _ a => a) nests i).all fun a => eq a 0
+
+/-- `get_mev_for_cross_nested_mu`: `log(mu * Σ terms)`; alone, or membership zero in every nest
+that lists the alternative ("alone in its own nest") ⇒ `log mu + (mu - 1) V_i` -/
 def cnlMuLogG (nests : List (CNest α)) (mu : α) (V av : Int → α) (i : Int) : α :=
-  if inSomeCNest nests i then log (emul mu (sum (giTerms (cnlMuTerm mu V av) nests i)))
+  if inSomeCNest nests i && !zeroMember nests i then
+    log (emul mu (sum (giTerms (cnlMuTerm mu V av) nests i)))
   else log mu + emul (mu - 1) (V i)
 
 def logCnlP (nests : List (CNest α)) (alts : List Int) (V av : Int → α) (c : Int) : Option α :=
@@ -260,6 +272,14 @@ def toCNest (m : Nest α) : CNest α := ⟨m.mu, m.alts.map fun i => (i, 1)⟩
 
 /-- the same with an allocation parameter `a i` for alternative `i` (still one nest each) -/
 def toCNestA (a : Int → α) (m : Nest α) : CNest α := ⟨m.mu, m.alts.map fun i => (i, a i)⟩
+
+/-- memberships written as a table: the nest also lists the alternatives `extra m` that do not
+belong to it, with the constant alpha 0 (`extra m` = the rest of the choice set: the full table
+of the Swissmetro cross-nested examples; an alternative outside every nest then has alpha 0 in
+every nest).  The zeros are put after the members (a dict: the place of a key only changes the
+order of the summation). -/
+def withZeros (extra : CNest α → List Int) (m : CNest α) : CNest α :=
+  ⟨m.mu, m.alphas ++ (extra m).map fun i => (i, 0)⟩
 
 /-! ## the model functions with their validation (what a call returns or raises) -/
 
@@ -280,7 +300,9 @@ def nestedSetup (utilKeys : List Int) (arg : NestsArg (Nest α)) (aloneNeedsUtil
 
 /-- `cnl / logcnl / cnlmu / logcnlmu`: `check_validity`, `util[i]` as above; a key of `util`
 that is neither alone nor in a nest has an empty list of terms: `bioMultSum([])` raises
-`BiogemeError`. -/
+`BiogemeError` — in the version without `mu` only: with `mu` (`aloneNeedsUtil`) the empty list
+of memberships passes the test "zero membership everywhere" and the key gets the term of an
+alone alternative. -/
 def cnlSetup (utilKeys : List Int) (arg : NestsArg (CNest α)) (aloneNeedsUtil : Bool) :
     Except String (List (CNest α) × List Int) := do
   let o ← resolve CNest.alts utilKeys arg
@@ -289,7 +311,8 @@ def cnlSetup (utilKeys : List Int) (arg : NestsArg (CNest α)) (aloneNeedsUtil :
   let al := aloneOf o.choiceSet lists
   if aloneNeedsUtil && !(al.all fun i => utilKeys.contains i) then throw "KeyError"
   if !((unionAlts lists).all fun i => utilKeys.contains i) then throw "KeyError"
-  if !(utilKeys.all fun i => (unionAlts lists ++ al).contains i) then throw "BiogemeError"
+  if !aloneNeedsUtil && !(utilKeys.all fun i => (unionAlts lists ++ al).contains i) then
+    throw "BiogemeError"
   pure (o.nests, al)
 
 /-! ## ordered models -/
